@@ -215,8 +215,8 @@ NumRun(line, i, digs, last) ==
 MatchNumber(line, i) ==
     LET r == NumRun(line, i, <<>>, 0 - 1)
     IN  IF r.last < 0 THEN Miss
-        ELSE IF F64Syntax(r.digs) THEN Hit(TkN(F64Value(r.digs)), r.last)
-        ELSE LexFail("invalid_number", i, r.last)
+        ELSE IF F64Syntax(r.digs) /\ ~IsInf(F64Value(r.digs)) THEN Hit(TkN(F64Value(r.digs)), r.last)
+        ELSE LexFail("invalid_number", i, r.last)            \* malformed, or too large to be a number
 
 MatchRemark(line, i) ==
     LET e == ChompKw(line, i, KwREM)
